@@ -36,6 +36,7 @@ inductive Step where
   | discBytes
   | disc (n : Nat)
   | arr (body : List Step)
+  | arrB (elem : Nat) (body : List Step)   -- count checked first: `if n < 0 || n > size/elem { error }` (ApiVersions)
   | ifGe (v : Nat) (body : List Step)
   | failIfErr
   | expect1
@@ -89,6 +90,12 @@ def runStep : Step → P
     match readInt 4 s with
     | (.error e, s') => (.error e, s')
     | (.ok n, s') => iter n.toNat (runSteps body) c s'
+  | .arrB elem body => fun c s =>
+    match readInt 4 s with
+    | (.error e, s') => (.error e, s')
+    | (.ok n, s') =>
+      if n < 0 ∨ n > (s'.sz / elem : Nat) then (.error (.other "invalid element count"), s')
+      else iter n.toNat (runSteps body) c s'
   | .ifGe v body => fun c s => if c.ver ≥ v then runSteps body c s else (.ok c, s)
   | .failIfErr => fun c s => if c.lastErr ≠ 0 then (.error (.kafka c.lastErr), s) else (.ok c, s)
   | .expect1 => fun c s =>
@@ -122,6 +129,7 @@ mutual
 def Step.hasFail : Step → Bool
   | .failIfErr => true
   | .arr body => hasFailList body
+  | .arrB _ body => hasFailList body
   | .ifGe _ body => hasFailList body
   | _ => false
 def hasFailList : List Step → Bool
@@ -140,6 +148,7 @@ def Step.eqv : Step → Step → Bool
   | .discBytes, .discBytes => true
   | .disc a, .disc b => a == b
   | .arr a, .arr b => stepsEq a b
+  | .arrB e a, .arrB f b => e == f && stepsEq a b
   | .ifGe v a, .ifGe w b => v == w && stepsEq a b
   | .failIfErr, .failIfErr => true
   | .expect1, .expect1 => true
@@ -189,8 +198,8 @@ def fetchHeaderV10 : List Step :=
 def fetchHeader (v : Nat) : List Step :=
   if v ≥ 10 then fetchHeaderV10 else if v ≥ 5 then fetchHeaderV5 else fetchHeaderV2
 
-/-- conn.go ApiVersions (v0): error code, int32 count, `make([]ApiVersion, n)`, n × (int16 int16 int16) -/
-def apiVersionsParse : List Step := [ .err, .arr [ .int 2, .int 2, .int 2 ] ]
+/-- conn.go ApiVersions (v0): error code, int32 count (rejected if negative or larger than size/6), n × (int16 int16 int16) -/
+def apiVersionsParse : List Step := [ .err, .arrB 6 [ .int 2, .int 2, .int 2 ] ]
 
 /-! ### one request/response exchange: (*Conn).do and friends -/
 
@@ -310,6 +319,9 @@ structure LockFacts where
   apiVersions : Bool
   batchHandover : Bool -- ReadBatchWith puts the lock into the Batch it returns
   batchClose : Bool    -- (*Batch).close unlocks on every path
+  dropsBuffer : Bool := true  -- closing after a response that could not be read drops what is left of it in the read
+                       -- buffer (conn.go abortRead, /repo 248476c); not a lock fact and not part of `all`: without it a
+                       -- caller already in flight is served the leftover as if it were the next response
   deriving Repr, DecidableEq
 
 def LockFacts.all (f : LockFacts) : Bool :=
@@ -340,12 +352,17 @@ def released (lf : LockFacts) (viaDo : Bool) : ExitPath → Bool
 /-- one exchange on a Conn with its read lock: `cl.2` = the Conn is wedged (the lock is held by nobody who will ever
 release it, or the in-flight count leaked and a foreign response is waiting): a sent request never returns -/
 def connDoL (lf : LockFacts) (inflight : Bool) (o : OpSpec) (v : Nat) (topic : Bytes) (cl : Conn × Bool) : Outcome × (Conn × Bool) :=
-  if cl.2 && exitPath inflight cl.1 ≠ .notSent then (blocked, cl)
+  -- a caller already in flight when the Conn was closed finds the network connection closed — unless the closing path
+  -- left the rest of the broken response in the read buffer: then Peek serves it those bytes
+  let served := inflight && cl.1.closed && !lf.dropsBuffer
+  let c0 : Conn := if served then { cl.1 with closed := false } else cl.1
+  if cl.2 && exitPath inflight c0 ≠ .notSent then (blocked, cl)
   else
-    let r := if inflight && cl.1.closed then (Outcome.fail .eof, { cl.1 with nextId := cl.1.nextId + 1 }) else connDo o v topic cl.1
+    let r := if inflight && c0.closed then (Outcome.fail .eof, { c0 with nextId := c0.nextId + 1 }) else connDo o v topic c0
     -- code without the C11-D30 fix keeps the Conn open after io.ErrNoProgress
-    let r := if exitPath inflight cl.1 = .noProgress && !lf.desyncCloses then (r.1, { r.2 with closed := false }) else r
-    (r.1, (r.2, cl.2 || !released lf o.closeOnErr (exitPath inflight cl.1)))
+    let r := if exitPath inflight c0 = .noProgress && !lf.desyncCloses then (r.1, { r.2 with closed := false }) else r
+    let r := if served then (r.1, { r.2 with closed := true }) else r
+    (r.1, (r.2, cl.2 || !released lf o.closeOnErr (exitPath inflight c0)))
 
 /-! ### fetch: ReadBatchWith, Batch.readMessage until an error, Batch.Close -/
 
@@ -365,8 +382,9 @@ def drainKafka (fixed : Bool) (k : Int) (s1 : RS) : Outcome × RS :=
     | (.error e, s2) => (.fail e, s2)
   else (.kafka k, s1)
 
-/-- ReadBatchWith + reading the batch to its end + Close; `fixed` = with discardOnKafkaError (D2 fix) and with the
-skip of the message set at the high watermark (C11-D32).
+/-- ReadBatchWith + reading the batch to its end + Close; `fixed` = with discardOnKafkaError (D2 fix), with the
+skip of the message set at the high watermark (C11-D32) and with Batch.close minding the error of its final discard
+(C02-D33).
 Deadlines never expire in the model (checkTimeoutErr = io.EOF). -/
 def fetchRead (fixed : Bool) (v : Nat) (offset : Int) (b : Body) (s : RS) : Outcome × RS :=
   match runSteps (fetchHeader v) { ver := v } s with
@@ -386,10 +404,10 @@ def fetchRead (fixed : Bool) (v : Nat) (offset : Int) (b : Body) (s : RS) : Outc
           (match discardN s3.sz s3 with
            | (.ok _, s4) => (.ok, s4)                           -- remaining() == 0 → io.EOF: batch complete, Close() = nil
            | (.error e, s4) => (.fail (if e = .eof then .unexpectedEOF else e), s4))
-        | (.kafka k, s3) =>                                     -- a kafka error out of ReadMessage: Close discards, Conn kept
-          (match discardN s3.sz s3 with
-           | (.ok _, s4) => (.kafka k, s4)
-           | (.error _, s4) => (.kafka k, s4))
+        | (.kafka k, s3) =>                                     -- a kafka error out of ReadMessage: Close discards, Conn kept —
+          (match discardN s3.sz s3 with                         -- unless the rest cannot be skipped (fix C02-D33; before it
+           | (.ok _, s4) => (.kafka k, s4)                      -- Batch.close ignored the error of msgs.discard())
+           | (.error e, s4) => if fixed then (.fail (if e = .eof then .unexpectedEOF else e), s4) else (.kafka k, s4))
         | (e, s3) => (.fail e, s3)
 
 def connFetch (fixed : Bool) (v : Nat) (offset : Int) (b : Body) (c : Conn) : Outcome × Conn :=
